@@ -21,7 +21,7 @@
 (***************************************************************************)
 EXTENDS Integers, Sequences, FiniteSets
 Ops == {"B1", "B2", "F1", "U1", "U2", "R", "S", "P", "UPD"}
-Objects == {"d1", "d2", "formula", "uspec", "spec1"}
+Objects == {"d1", "d2", "formula", "uspec", "spec1", "context"}      \* context: the caller's mapping and the objects in it
 \* abstract results and fingerprints: symbolic constants
 ResultOf(op) == op
 Fp0(obj) == obj
